@@ -1110,6 +1110,12 @@ func (e *Env) callExpr(c *CExpr) val {
 		a := e.eval(c.Args[0])
 		vc.regComp("ChanClosed", "(Array Int Bool)")
 		return boolVal(sel(vc.get(e.cur, "ChanClosed"), a.t))
+	case "chancap":
+		// buffer capacity of a channel: fixed when the channel is made, so a function of the channel
+		argn(1)
+		a := e.eval(c.Args[0])
+		vc.declFun(quote("spec$chancap"), []string{sInt}, sInt)
+		return intVal(app(quote("spec$chancap"), a.t))
 	case "isa":
 		argn(1)
 		ta := c.Args[0]
